@@ -111,13 +111,13 @@ _E = ["eventCall", "smSend"]
 SRC_TIE = {
     "C07": ["eventCall", "reservedNames", "injectedNames", "bindExpected", "callableMethod", "engBase", "takeCallback"],
     "C16": ["engBase", "factory"] + ["surface", "glue"],
-    "C13": _E + ["allowedEvents", "decl"] + ["surface"],
-    "C15": ["decl", "factory"] + ["surface"],
+    "C13": _E + ["allowedEvents", "decl"] + ["surface", "objects"],
+    "C15": ["decl", "factory"] + ["surface", "objects"],
     "C18": ["diagram"] + ["surface"],
-    "C10": ["store", "smInit"] + ["surface", "glue"],
+    "C10": ["store", "smInit"] + ["surface", "glue", "objects"],
     "C12": ["smInit", "registerCallbacks", "addListener", "registry", "specs", "takeCallback"],
     "C17": ["getState", "setState", "registerCallbacks", "addListener"] + ["surface"],
-    "C09": ["visitConnected", "classCheck", "metaInit", "transitionInit", "decl"],
+    "C09": ["visitConnected", "classCheck", "metaInit", "transitionInit", "decl", "objects"],
     "C01": ["triggerSync", "triggerAsync"] + _W + _G + ["decl"] + ["surface"],
     "C02": ["activateSync", "activateAsync"] + _W + _A + ["registry", "registerCallbacks", "addListener", "decl", "specs"],
     "C03": ["processSync", "processAsync"] + _E + ["engBase"],
@@ -133,10 +133,10 @@ TIE_MOD = "SMV.Src.Tie"
 TIE_MODS = ["SMV.Src.Tie", "SMV.Src.TieExpr"]
 # further tie modules, built and audited only for the properties whose index names their theorems
 TIE_EXTRA = {"C07": ["SMV.Src.TieBind", "SMV.Src.TieEng", "SMV.Src.TieTake"], "C03": ["SMV.Src.TieEng"], "C06": ["SMV.Src.TieEng"],
-             "C16": ["SMV.Src.TieEng", "SMV.Src.TieFactory", "SMV.Src.TieSurface", "SMV.Src.TieGlue"], "C05": ["SMV.Src.TieGlue"], "C09": ["SMV.Src.TieCheck", "SMV.Src.TieDecl"], "C01": ["SMV.Src.TieDecl", "SMV.Src.TieSurface"],
-             "C15": ["SMV.Src.TieDecl", "SMV.Src.TieFactory", "SMV.Src.TieSurface"], "C18": ["SMV.Src.TieDiagram", "SMV.Src.TieSurface"], "C10": ["SMV.Src.TieStore", "SMV.Src.TieSurface", "SMV.Src.TieGlue"],
+             "C16": ["SMV.Src.TieEng", "SMV.Src.TieFactory", "SMV.Src.TieSurface", "SMV.Src.TieGlue"], "C05": ["SMV.Src.TieGlue"], "C09": ["SMV.Src.TieCheck", "SMV.Src.TieDecl", "SMV.Src.TieObj"], "C01": ["SMV.Src.TieDecl", "SMV.Src.TieSurface"],
+             "C15": ["SMV.Src.TieDecl", "SMV.Src.TieFactory", "SMV.Src.TieSurface", "SMV.Src.TieObj"], "C18": ["SMV.Src.TieDiagram", "SMV.Src.TieSurface"], "C10": ["SMV.Src.TieStore", "SMV.Src.TieSurface", "SMV.Src.TieGlue", "SMV.Src.TieObj"],
              "C11": ["SMV.Src.TieStore", "SMV.Src.TieEng", "SMV.Src.TieGlue"], "C12": ["SMV.Src.TieStore", "SMV.Src.TieReg", "SMV.Src.TieSpec", "SMV.Src.TieTake"], "C02": ["SMV.Src.TieReg", "SMV.Src.TieStore", "SMV.Src.TieDecl", "SMV.Src.TieSpec"],
-             "C14": ["SMV.Src.TieStore", "SMV.Src.TieSpec"], "C08": ["SMV.Src.TieSpec", "SMV.Src.TieTake"], "C13": ["SMV.Src.TieStore", "SMV.Src.TieDecl", "SMV.Src.TieSurface"],
+             "C14": ["SMV.Src.TieStore", "SMV.Src.TieSpec"], "C08": ["SMV.Src.TieSpec", "SMV.Src.TieTake"], "C13": ["SMV.Src.TieStore", "SMV.Src.TieDecl", "SMV.Src.TieSurface", "SMV.Src.TieObj"],
              "C17": ["SMV.Src.TieStore", "SMV.Src.TieSurface"]}
 
 
